@@ -38,7 +38,7 @@ SHARDS = {"quick": 8, "thorough": 16}
 
 @st.composite
 def cases(draw):
-    space = draw(spaces(max_params=3, max_runs=12))
+    space = draw(spaces(max_params=3, max_runs=12, with_nested=True))
     space["dask"] = True
     if space["mode"] == "sequential" and sum(p["enabled"] for p in space["params"]) >= 2:
         first = next(i for i, p in enumerate(space["params"]) if p["enabled"])
